@@ -21,6 +21,11 @@ impl Acl {
     pub fn __constructor(e: &Env, admin: Address) {
         ac::set_admin(e, &admin);
     }
+    /// what an integrator's constructor or set-up code does: the documented idempotent no-auth grant (e.g. an initial
+    /// member list that names an address twice)
+    pub fn seed_role(e: &Env, account: Address, role: soroban_sdk::Symbol) {
+        ac::grant_role_no_auth(e, &account, &role, &account)
+    }
     #[only_admin]
     pub fn admin_fn(e: &Env) -> u32 {
         1
@@ -60,6 +65,8 @@ pub enum Step {
     /// the clock (inserted by the core's clock faults): nothing but time passes
     Wait { n: u32 },
     Grant { account: usize, role: usize, caller: usize, signer: Option<usize> },
+    /// wrapper flavour only: grant_role_no_auth through set-up code (idempotent by its documentation)
+    Seed { account: usize, role: usize },
     Revoke { account: usize, role: usize, caller: usize, signer: Option<usize> },
     Renounce { role: usize, caller: usize, signer: Option<usize> },
     SetRoleAdmin { role: usize, admin_role: usize, signer: Option<usize> },
@@ -106,6 +113,14 @@ impl Model {
                     return false;
                 }
                 self.members.remove(&(account, role));
+                true
+            }
+            Step::Seed { account, role } => {
+                let existing: BTreeSet<usize> = self.members.iter().map(|x| x.1).collect();
+                if !existing.contains(&role) && existing.len() >= 256 {
+                    return false;
+                }
+                self.members.insert((account, role));
                 true
             }
             Step::Renounce { role, caller, signer } => {
@@ -163,7 +178,7 @@ impl Check for Access {
         serde_json::json!({"real": ["examples/nft-access-control (from source; 35 % of the runs)", "stellar_access::access_control::* (trait defaults)", "stellar_macros::{only_admin, only_role, has_role, only_any_role, has_any_role}"], "stub": ["Wallet"]})
     }
     fn probes(&self, _prop: &str) -> std::vec::Vec<&'static str> {
-        vec!["probe.max_roles_reached", "fault.auth_missing", "fault.auth_foreign"]
+        vec!["probe.max_roles_reached", "probe.no_auth_grant_to_existing_member", "fault.auth_missing", "fault.auth_foreign"]
     }
     fn clock_step(&self, n: u32) -> Option<Step> {
         Some(Step::Wait { n })
@@ -229,6 +244,11 @@ impl Check for Access {
                     let who = if rng.chance(12) { any(rng) } else { who };
                     Step::SetRoleAdmin { role, admin_role: rng.below(4) as usize, signer: sign(rng, who) }
                 }
+                70 if !cfg.example => {
+                    // often an account that already holds the role (the idempotent case)
+                    let held: std::vec::Vec<(usize, usize)> = m.members.iter().cloned().collect();
+                    if !held.is_empty() && rng.chance(60) { let h = *rng.pick(&held); Step::Seed { account: h.0, role: h.1 } } else { Step::Seed { account: any(rng), role } }
+                }
                 68..=69 => {
                     let who = if rng.chance(70) { m.admin.unwrap_or_else(|| any(rng)) } else { any(rng) };
                     Step::RenounceAdmin { signer: sign(rng, who) }
@@ -289,6 +309,10 @@ impl Check for Access {
                 Step::Revoke { account, role: r, caller, signer } => {
                     one(*signer, "revoke_role", (a(*account), role(*r), a(*caller)).into_val(e));
                     ("revoke_role", c.try_revoke_role(&a(*account), &role(*r), &a(*caller)).is_ok())
+                }
+                Step::Seed { account, role: r } => {
+                    if m.members.contains(&(*account, *r)) { st.hit("probe.no_auth_grant_to_existing_member"); }
+                    ("seed_role", c.try_seed_role(&a(*account), &role(*r)).is_ok())
                 }
                 Step::Renounce { role: r, caller, signer } => {
                     one(*signer, "renounce_role", (role(*r), a(*caller)).into_val(e));
@@ -371,7 +395,7 @@ impl Check for Access {
             let mut existing: BTreeSet<usize> = m.members.iter().map(|x| x.1).filter(|r| *r >= 4).collect();
             if existing.len() >= 252 { st.hit("probe.max_roles_reached"); }
             let mut inspect: std::vec::Vec<usize> = (0..4).collect();
-            if let Step::Grant { role: r, .. } | Step::Revoke { role: r, .. } | Step::Renounce { role: r, .. } = s { if *r >= 4 { inspect.push(*r); } }
+            if let Step::Grant { role: r, .. } | Step::Revoke { role: r, .. } | Step::Renounce { role: r, .. } | Step::Seed { role: r, .. } = s { if *r >= 4 { inspect.push(*r); } }
             if !existing.is_empty() { inspect.extend([10, 265, 300, 301]); }
             inspect.sort();
             inspect.dedup();
